@@ -8,9 +8,9 @@
 EXTENDS J5Entity
 
 CapTable ==
-    [w \in {"foo", "bar", "baz", "id", "2", "key", "dat", "fld", "sum", "a", "b", "c", "d", "e", "f",
+    [w \in {"api", "foo", "bar", "baz", "id", "2", "key", "dat", "fld", "sum", "a", "b", "c", "d", "e", "f",
             "create", "archive", "updated", "short", "full", "view", "account", "name", "publish", "event"} |->
-     CASE w = "foo" -> "Foo" [] w = "bar" -> "Bar" [] w = "baz" -> "Baz" [] w = "id" -> "Id" [] w = "2" -> "2"
+     CASE w = "api" -> "Api" [] w = "foo" -> "Foo" [] w = "bar" -> "Bar" [] w = "baz" -> "Baz" [] w = "id" -> "Id" [] w = "2" -> "2"
        [] w = "key" -> "Key" [] w = "dat" -> "Dat" [] w = "fld" -> "Fld" [] w = "sum" -> "Sum"
        [] w = "a" -> "A" [] w = "b" -> "B" [] w = "c" -> "C" [] w = "d" -> "D" [] w = "e" -> "E" [] w = "f" -> "F"
        [] w = "create" -> "Create" [] w = "archive" -> "Archive" [] w = "updated" -> "Updated"
@@ -19,7 +19,7 @@ CapTable ==
 
 UpperTable ==
     [w \in DOMAIN CapTable |->
-     CASE w = "foo" -> "FOO" [] w = "bar" -> "BAR" [] w = "baz" -> "BAZ" [] w = "id" -> "ID" [] w = "2" -> "2"
+     CASE w = "api" -> "API" [] w = "foo" -> "FOO" [] w = "bar" -> "BAR" [] w = "baz" -> "BAZ" [] w = "id" -> "ID" [] w = "2" -> "2"
        [] w = "key" -> "KEY" [] w = "dat" -> "DAT" [] w = "fld" -> "FLD" [] w = "sum" -> "SUM"
        [] w = "a" -> "A" [] w = "b" -> "B" [] w = "c" -> "C" [] w = "d" -> "D" [] w = "e" -> "E" [] w = "f" -> "F"
        [] w = "create" -> "CREATE" [] w = "archive" -> "ARCHIVE" [] w = "updated" -> "UPDATED"
@@ -30,7 +30,7 @@ AcronymSet == {"id"}
 
 N(ws, c) == [words |-> ws, casing |-> c]
 NamesMin == {N(<<"foo">>, "upper")}
-NamesTwo == {N(<<"foo">>, "upper"), N(<<"foo", "bar">>, "lower")}
+NamesTwo == {N(<<"foo">>, "upper"), N(<<"foo", "bar">>, "lower"), N(<<"api", "key">>, "leadacr")}
 NamesAll ==
     {N(<<"foo">>, c) : c \in {"upper", "lower"}}
     \cup {N(<<"foo", "bar">>, c) : c \in {"upper", "lower", "snake"}}
@@ -38,6 +38,7 @@ NamesAll ==
     \cup {N(<<"foo", "2">>, c) : c \in {"upper", "lower", "snake"}}
     \cup {N(<<"foo", "id">>, c) : c \in {"upper", "lower", "snake", "acronym"}}
     \cup {N(<<"foo", "bar">>, "screaming")}
+    \cup {N(<<"api", "key">>, "leadacr")}
 
 K(t, m, ten, sh, r) == [type |-> t, marker |-> m, tenant |-> ten, shard |-> sh, req |-> r]
 KeysMin == {K("key:id62", "primary", FALSE, FALSE, FALSE)}
